@@ -6,6 +6,7 @@ tiers = json.load(open(os.path.join(V, "tiers.json")))
 props = [json.loads(l) for l in open(os.path.join(V, "properties.jsonl"))]
 LEVEL = {
  "C01": ("DESIGN.md §5 C01", "Seeded search over fault sequences (crash with power-loss/kill images, partitions, coordinator crashes, stream breaks, message loss, node swaps, lock-site yields) on a real cluster; containment of every acknowledged write in every later leader's log, final state == reference fold, replica agreement."),
+ "C02": ("DESIGN.md §5 C02", "Same engine with read-heavy concurrent clients on few keys; the recorded invoke/return history (global event stamps, unique values) of each shard is checked with porcupine against a sequential map model, with unknown-outcome writes left pending and the property's deposed-leader clause applied to reads; plus version-id consistency of all observations."),
  "C03": ("DESIGN.md §5 C03", "Same engine with replication-heavy schedules; every Ack on the wire is checked at the first quiescent point after it was sent against the follower's synced log and the leader's log; pairwise prefix agreement and byte-identical state after healing."),
  "C04": ("DESIGN.md §5 C04", "Same engine with trigger-placed NewTerm requests (held until the target node is in the middle of an operation) and elections forced over a live busy leader; reported head vs. real log end, log frozen after the fence, no ack in older terms."),
  "C05": ("DESIGN.md §5 C05", "Same engine, election-heavy (coordinator crashes, muted leaders, node swaps); monitors on metadata stores and coordination RPCs for durable-before-send, monotonic terms, one leader per term, fenced majority and best in-ensemble head."),
